@@ -1459,6 +1459,33 @@ impl TypeChecker {
         self.sub_unify(span, ctx, a, b, &mut seen)
     }
 
+    /// An unknown type cannot become a tuple that contains itself as a (nested) component:
+    /// no value has such a type (a list, blob or enum in between is fine, they can be cyclic).
+    fn check_not_inside(&mut self, span: Span, unknown: TyID, ty: TyID) -> TypeResult<()> {
+        let unknown = self.find(unknown);
+        let mut seen = BTreeSet::new();
+        let mut todo = vec![ty];
+        while let Some(ty) = todo.pop() {
+            let ty = self.find(ty);
+            if !seen.insert(ty) {
+                continue;
+            }
+            match self.find_type(ty) {
+                Type::Tuple(tys) => todo.extend(tys.iter()),
+                _ => continue,
+            }
+            if seen.contains(&unknown) || todo.iter().any(|ty| self.find(*ty) == unknown) {
+                return err_type_error!(
+                    self,
+                    span,
+                    TypeError::Exotic,
+                    "This would need a type that contains itself"
+                );
+            }
+        }
+        Ok(())
+    }
+
     fn sub_unify(
         &mut self,
         span: Span,
@@ -1479,8 +1506,14 @@ impl TypeChecker {
         seen.insert((b, a));
 
         match (self.find_type(a), self.find_type(b)) {
-            (_, Type::Unknown) => self.find_node_mut(b).ty = self.find_type(a),
-            (Type::Unknown, _) => self.find_node_mut(a).ty = self.find_type(b),
+            (_, Type::Unknown) => {
+                self.check_not_inside(span, b, a)?;
+                self.find_node_mut(b).ty = self.find_type(a)
+            }
+            (Type::Unknown, _) => {
+                self.check_not_inside(span, a, b)?;
+                self.find_node_mut(a).ty = self.find_type(b)
+            }
 
             _ => match (self.find_type(a), self.find_type(b)) {
                 (Type::Ty, Type::Ty) => {}
